@@ -298,8 +298,8 @@ class C09Pause(Monitor):
             return
         if env.pause_req and not env.cancel_req and not env.inflight and not env.held:
             count(env, "c09_last_reported")
-            if st not in COMPLETED and st != S.PAUSED:
-                self.fail(env, "not-paused-at-rest", "C09 pause requested and the last in-flight action has reported, yet the workflow reports %s" % st, status=st)
+            if st not in (S.PAUSED, S.FAILED, S.CANCELED):
+                self.fail(env, "not-paused-at-rest", "C09 pause requested and the last in-flight action has reported, yet the workflow reports %s (paused is due; only a failure or a cancellation may pre-empt it)" % st, status=st)
         if st == S.PAUSED and env.inflight:
             self.fail(env, "paused-with-inflight", "C09 paused while %s still in flight" % [a.label() for a in env.inflight])
 
